@@ -89,6 +89,22 @@ CLAIMED["C18"] = (
     "trusts net/http's own query/cookie parsing for what a raw header contains (raw inputs are checked for totality and consistency only) and strconv.ParseFloat for which texts are float literals; out-of-range integers are unspecified",
     "DESIGN.md section 4 C18")
 
+CLAIMED["C05"] = (
+    "rapid-generated concurrent rounds (2..16 goroutines x 5..40 requests over routes of every kind, yields inside handlers, GOMAXPROCS in {2,4,16}, 0..7 middleware) on a fresh instance, built with -race; oracle = serial-vs-concurrent differential + Go race detector (halt_on_error, the round in flight is the replay artefact)",
+    "Two identical applications are built per round; one serves every distinct request alone, the fresh one is hit by goroutines released together; every concurrent response (route marker, echoed parameters, request-scoped token received by type, URLs built from named routes) must equal the serial one and the race detector must stay silent. Interleavings are sampled, not enumerated: this finds shared framework state written during requests (handler slices, lazily cached strings, shared parameter maps), not logical races on properly synchronised state.",
+    "trusts the Go race detector; the harness does not own the scheduler, so a failure reproduces only statistically and absence of a report is weaker evidence here than for the other properties",
+    "DESIGN.md section 4 C05 and section 5")
+CLAIMED["C16"] = (
+    "rapid-generated option sets x hostile request paths (traversal, doubled slashes, NUL, backslash, prefix look-alikes, directories, conditional requests) against an on-disk fixture with marker files inside and outside the directory, oracle = own resolver over the fixture manifest + 'no outside marker ever' invariant + silent-means-next-handler check",
+    "Static is mounted on a generated fixture tree with every option combination and asked for generated paths with every method; an own resolver says whether the request must be left alone (then the next handler must have produced the whole response and Static may not have set any header), redirected to a local slash-terminated path, or answered with exactly the marker of one regular file inside the directory (HEAD: empty; 304 for a matching ETag when SetETag), with the configured Expires / Cache-Control; no response may ever contain the marker of a file outside the directory.",
+    "trusts the resolver (40 lines), path.Clean and the local file system; no symlinks; an index-less directory without trailing slash may be redirected or left alone",
+    "DESIGN.md section 4 C16")
+CLAIMED["C17"] = (
+    "rapid-generated render calls (random nested JSON values, tagged structs, XML structs with attributes / optional / repeated elements, arbitrary bytes and text, any status, all option combinations, Renderer at any level, GET/POST/HEAD, optional nested request through the same application), oracle = spy status/Content-Type + decode round trip + layout by the configured indentation",
+    "For every generated call the spy must have received exactly the given status once and first, the documented Content-Type with the configured charset, Binary / PlainText bodies verbatim, a JSON body that is valid JSON laid out with the configured indentation and decodes DeepEqual to the value, an XML body equal to encoding/xml's output that decodes into an equal struct; every handler after the Renderer middleware must receive a Render, and a nested request served before rendering must not disturb the outer response.",
+    "trusts encoding/json and encoding/xml as 'the standard encoders'; values are encodable and XML-representable",
+    "DESIGN.md section 4 C17")
+
 PENDING = {}
 
 def main():
